@@ -413,6 +413,9 @@ def gen_compile_program(rng):
         name, ar = rng.choice(preds)
         nvars = rng.randrange(2, 8)
         vs = rng.sample(['X', 'Y', 'Z', 'W', 'L', 'Acc', 'Head', 'Tail', 'N1', 'Result', 'A', 'B', '_G', 'Xs'], nvars)
+        if rng.random() < 0.12:
+            # legal Prolog variables that are spelled like Python keywords / names the generated code uses itself
+            vs[rng.randrange(len(vs))] = rng.choice(['None', 'True', 'False', 'YP', 'Arg1', '__class__'])
         bg = BodyGen(rng, preds, vs, rich=True)
         bg.lookalikes = True
         hargs = []
@@ -464,6 +467,20 @@ def unquoted_twin(text):
     import re
     twin = re.sub(r"'([A-Z_][A-Za-z0-9_]*)'", r"\1", text)
     return twin if twin != text else None
+
+
+def syntax_error_variant(rng, text):
+    """`text` with a syntax error in its first clause (ANTLR reports it on stderr and recovers as well as it can)"""
+    first = text.split('\n')[0]
+    if ' :- ' not in first:
+        return None
+    kind = rng.choice(('lost-paren', 'double-neck', 'stray-token'))
+    if kind == 'lost-paren' and ')' in first:
+        i = first.rindex(')')
+        return first[:i] + first[i + 1:] + '\n'
+    if kind == 'double-neck':
+        return first.replace(' :- ', ' :- :- ', 1) + '\n'
+    return first[:-1] + ' ] .\n'
 
 
 def failing_variant(rng, text):
